@@ -128,7 +128,8 @@ Lemma variant_marshal_render v :
   variant_marshal orc v = "#EXT-X-STREAM-INF:" ++ render_attrs (variant_attrs v) ++ lf ++ v_uri v ++ lf.
 Proof.
   unfold variant_marshal, variant_attrs. cbn [render_attrs app render_tail].
-  rewrite !render_tail_app, !render_tail_opt.
+  repeat (rewrite render_tail_app; cbn [render_tail app]).
+  rewrite !render_tail_opt.
   rewrite (render_tail_optm (v_avgbandwidth v) (fun x => ("AVERAGE-BANDWIDTH", AU (fmt_int x)))).
   rewrite (render_tail_optm (v_framerate v) (fun f => ("FRAME-RATE", AU (fmt_rate orc f)))).
   cbn [render_tail].
